@@ -76,7 +76,7 @@ theorem rdSqpk_target (isz : UInt32) (pl rg dbg v : UInt16) (del sk : UInt64) (r
       .ok (.targetInfo pl.toUInt8) rest := by
   simp only [Cmd.wf, Bool.and_eq_true, Bool.or_eq_true, decide_eq_true_eq] at hwf
   have hpl : pl.toUInt8 ≤ 4 := by
-    have := hwf.1; revert this; generalize pl = x; intro h; bv_decide
+    have := hwf.1; revert this; generalize pl = x; intro h; bv_decide (timeout := 300)
   simp (config := {decide := true}) only [rdSqpk, sqpkBody, rdU32be_put, rdU8_cons, List.cons_append,
     List.nil_append, List.append_assoc, List.drop_succ_cons, List.drop_zero, drop1_putU16be, rdU16be_put,
     rdU64le_put, ↓reduceIte, Option.bind_eq_bind, Option.bind_some, Option.pure_def, hpl, hwf.2,
@@ -326,7 +326,7 @@ theorem rdChunkBody_encodeCmd (c : Cmd) (hwf : c.wf = true) (rest : Bytes) :
 /-! ### file blocks as the specification encodes them -/
 
 theorem pad128_eq_div (l : UInt64) (h : l < 0x80000000) : pad128 l = (l + 143) / 128 * 128 := by
-  simp only [pad128]; bv_decide
+  simp only [pad128]; bv_decide (timeout := 300)
 
 theorem pad128_toNat (n : Nat) (h : n < 2 ^ 31) : (pad128 (UInt64.ofNat n)).toNat = paddedLen n := by
   have hn : (UInt64.ofNat n).toNat = n := by simp [UInt64.toNat_ofNat']; omega
